@@ -81,9 +81,11 @@ func genConcOp(t *sim.Tape) concOp {
 			return dump.Err(err) + " " + dump.Object(d)
 		}}
 	case 0: // hostile program in its own interpreter
-		p := gen.GenPS(t, hostileOpts)
+		ho := hostileOpts
+		ho.PlainLex = t.Bool(1, 2) // the rich lexical forms (radix numbers, escapes ...) have helpers of their own
+		p := gen.GenPS(t, ho)
 		if t.Bool(1, 5) {
-			o := hostileOpts
+			o := ho
 			o.Files, o.Errors = true, 40
 			p = gen.GenPSWithEexec(t, o)
 		}
@@ -198,7 +200,16 @@ func genConcOp(t *sim.Tape) concOp {
 func foreignFontOp(t *sim.Tape) concOp {
 	var file []byte
 	what := ""
-	switch t.Choose(3) {
+	switch t.Choose(5) {
+	case 3:
+		file = gen.FractionalWidthFont(t)
+		what = "font with fractional widths"
+	case 4:
+		so, sp := gen.SubrFontPair(t)
+		file, what = so, "font with Subrs"
+		if t.Bool(1, 2) {
+			file, what = sp, "lenIV 0 font with Subrs"
+		}
 	default:
 		file, _ = gen.BigSeacFont(t)
 		what = "large seac font"
@@ -291,6 +302,11 @@ errordict /typecheck known 1 (a) add
 		err := f.Write(&buf, &type1.WriterOptions{Format: format})
 		g, err2 := type1.Read(bytes.NewReader(buf.Bytes()))
 		fmt.Fprintf(&sb, "\nformat %d: %s %s %x %s", format, dump.Err(err), dump.Err(err2), sim.HashBytes(buf.Bytes()), dump.Font(g))
+	}
+	// a font with charstring subroutines (hand-assembled; fixed)
+	if so, _ := gen.SubrFontPair(sim.ReplayTape([]uint32{1, 2, 3})); so != nil {
+		g, err := type1.Read(bytes.NewReader(so))
+		fmt.Fprintf(&sb, "\nsubr font: %s %s", dump.Err(err), dump.Font(g))
 	}
 	// default options, the PDF form, the queries, and the exported tables
 	{
